@@ -455,6 +455,11 @@ def memtrace_validate(rep, work, name, tracedir, piece=60000, module="TraceMem")
                 raise Infra("%s rejected event %s which belongs to no instance" % (module, at))
             rejected.append((bad[1], at - bad[0] - 1))
             bounds = [b for b in bounds if b[1] is not bad[1]]
+            if len(rejected) >= 12:
+                # enough to report (the check fails anyway): the remaining instances are not examined, nor counted
+                unexamined = len(bounds) + len(pending)
+                insts = insts[:len(insts) - unexamined]
+                bounds, pending = [], []
             if not bounds:
                 break
             with open(tf, "w") as f:
@@ -976,7 +981,7 @@ def build_server_binary():
 
 
 def conc_stage(rep, work, name, systems, clients, runs, ops, keys, gated, race=False, witness=False, timeout=900, seq=0,
-               kill_rounds=0, partrace=0, local=False, big=""):
+               kill_rounds=0, partrace=0, local=False, big="", sched=""):
     tag = re.sub(r"\W", "_", name)
     trace = work.path("conc.%s.ndjson" % tag)
     out = work.path("conc.%s.json" % tag)
@@ -993,6 +998,10 @@ def conc_stage(rep, work, name, systems, clients, runs, ops, keys, gated, race=F
     if kill_rounds:
         cmd = [binary, "kill", "--bin", build_server_binary(), "--kinds", ",".join(systems), "--seed", str(rep.seed),
                "--runs", str(runs), "--rounds", str(kill_rounds), "--trace", trace, "--out", out]
+    if sched:
+        # every interleaving of the park points of small concurrent programs (sched.go)
+        cmd = [binary, "sched", "--systems", ",".join(systems), "--seed", str(rep.seed), "--level", sched,
+               "--trace", trace, "--out", out, "--max", "30000" if sched == "thorough" else "6000"]
     env = dict(os.environ, GORACE="halt_on_error=0 history_size=3")
     mtdir = None
     if "mem" in systems and not kill_rounds:
@@ -1131,6 +1140,8 @@ def conc_stage(rep, work, name, systems, clients, runs, ops, keys, gated, race=F
     rep.traces += summ["runs"] - len(rejected) - inconclusive
     rep.stages.append({"stage": name, "runs": summ["runs"], "events": summ["events"], "per_system": summ.get("per_system"),
                        "clients": list(clients), "race_detector": race, "rejected": len(rejected), "inconclusive": inconclusive})
+    if summ.get("schedules"):
+        rep.stages[-1]["schedule_exploration"] = summ["schedules"]
     if len(rep.samples) < 2 and os.path.exists(trace):
         with open(trace) as f:
             rep.samples.append([json.loads(x) for x in f.readlines()[:6]])
